@@ -6,6 +6,7 @@
 import Kingdon.Model.Blade
 import Kingdon.Model.Poly
 import Kingdon.Model.Codegen
+import Kingdon.Model.OpDict
 open Kingdon
 
 def hexDigit? (ch : Char) : Option Nat :=
@@ -114,6 +115,41 @@ def step (line : String) : String :=
     match parseCfg cs, parseNatList gs, parseNatList kx with
     | some c, some gs, some kx => renderMV (gradeSel c gs (symMV 0 kx))
     | _, _, _ => "bad-op"
+  | "fname" :: cs :: pre :: keys =>
+    match parseCfg cs, keys.mapM parseNatList with
+    | some c, some kss =>
+      pre ++ "_" ++ String.intercalate "_x_" (kss.map fun ks => OD.renderTypeName (OD.typeName c.canonKeys ks))
+    | _, _ => "bad-op"
+  | "odrun" :: cs :: w :: calls =>
+    -- each call: <opIndex>/<keys>/<keys>...[!]   (`!` = its generation raises)
+    match parseCfg cs with
+    | none => "bad-op"
+    | some c =>
+      let parsed := calls.mapM fun tok =>
+        let fails := tok.endsWith "!"
+        let tok := if fails then (tok.dropEnd 1).toString else tok
+        match tok.splitOn "/" with
+        | o :: ks => do
+          let o ← o.toNat?
+          let ks ← ks.mapM parseNatList
+          some ((⟨o, ks⟩ : OD.FuncId), fails)
+        | [] => none
+      match parsed with
+      | none => "bad-op"
+      | some cl =>
+        let failing := (cl.filter (·.2)).map (·.1)
+        let genFails := fun f => failing.contains f
+        let rec go (s : OD.State) (l : List OD.FuncId) (acc : List String) : List String :=
+          match l with
+          | [] => acc.reverse
+          | f :: r =>
+            let (s', served) := OD.call c.canonKeys genFails (w == "1") s f
+            let g := if s'.gens.length > s.gens.length then "G" else "-"
+            let sv := match served with
+              | none => "raise"
+              | some h => if h == f then "own" else "other"
+            go s' r (s!"{g}:{sv}" :: acc)
+        String.intercalate " " (go OD.init (cl.map (·.1)) [])
   | _ => "bad-op"
 
 partial def loop (h : IO.FS.Stream) (out : IO.FS.Stream) : IO Unit := do
